@@ -774,6 +774,73 @@ fn method_cells(ctx: &Ctx) -> u64 {
     n
 }
 
+/// Header values with obs-text bytes (legal, not UTF-8) are values like any other: what the caller
+/// set is what goes out, and a default is added only when the caller supplied none.
+fn obs_text_cells(ctx: &Ctx) -> u64 {
+    let mut n = 0;
+    let raw: &[u8] = b"B\xfcro-Client/1.0 (caf\xe9)";
+    for name in ["User-Agent", "Accept", "X-A"] {
+        for on_session in [false, true] {
+            for append in [false, true] {
+                for via_send in [false, true] {
+                    n += 1;
+                    let value = http::HeaderValue::from_bytes(raw).unwrap();
+                    let hname = http::HeaderName::from_bytes(name.as_bytes()).unwrap();
+                    let mut s = attohttpc::Session::new();
+                    if on_session {
+                        if append {
+                            s.header_append(hname.clone(), value.clone());
+                        } else {
+                            s.header(hname.clone(), value.clone());
+                        }
+                    }
+                    let mut rb = s.get(URL);
+                    if !on_session {
+                        rb = if append { rb.header_append(hname.clone(), value.clone()) } else { rb.header(hname.clone(), value.clone()) };
+                    }
+                    let got: Vec<Vec<u8>> = if via_send {
+                        let world = World::install(false, |_, _| Ok(Script::plain(b"HTTP/1.1 200 OK\r\nContent-Length: 0\r\n\r\n".to_vec())));
+                        let _ = guarded(|| rb.send().map(|r| r.status().as_u16()));
+                        let conns = world.conns.lock().unwrap();
+                        let w = conns.first().map(|c| c.shared.lock().unwrap().written.clone()).unwrap_or_default();
+                        match parse_single_request(&w) {
+                            Ok(req) => req.header_all(&name.to_ascii_lowercase()).iter().map(|v| v.to_vec()).collect(),
+                            Err(e) => {
+                                ctx.violation("C16:obs-text:request-not-sent", format!("{name} with an obs-text value: the written bytes do not parse: {e}"), json!({"engine": "c16", "obs_text": true}), n);
+                                continue;
+                            }
+                        }
+                    } else {
+                        match guarded(|| rb.try_prepare()) {
+                            Ok(Ok(p)) => p.headers().get_all(&hname).iter().map(|v| v.as_bytes().to_vec()).collect(),
+                            other => {
+                                ctx.violation("C16:obs-text:prepare-failed", format!("{name} with an obs-text value: {:?}", other.map(|r| r.map(|_| ()))), json!({"engine": "c16", "obs_text": true}), n);
+                                continue;
+                            }
+                        }
+                    };
+                    if got != vec![raw.to_vec()] {
+                        ctx.violation(
+                            "C16:caller-header-lost",
+                            format!(
+                                "{name} {} on the {} with the value \"{}\" (obs-text bytes), request {}: the request carries {:?}",
+                                if append { "appended" } else { "set" },
+                                if on_session { "session" } else { "request" },
+                                esc(raw),
+                                if via_send { "sent" } else { "prepared" },
+                                got.iter().map(|v| esc(v)).collect::<Vec<_>>()
+                            ),
+                            json!({"engine": "c16", "obs_text": true}),
+                            n,
+                        );
+                    }
+                }
+            }
+        }
+    }
+    n
+}
+
 fn plans(tier: Tier) -> Vec<Plan> {
     let mut v = Vec::new();
     let d = tier.pick(7, 8);
@@ -809,7 +876,7 @@ pub fn c16(ctx: &Ctx) -> Report {
         tot.sends += s.sends;
     }
     let smoke = threads_smoke(ctx, &base);
-    let mcells = method_cells(ctx);
+    let mcells = method_cells(ctx) + obs_text_cells(ctx);
     tot.executions += mcells;
     ctx.sample(json!({"plan": ps[0], "history": [Op::NewSession, Op::Set(0, Field::MaxRedirections, 1), Op::NewBuilder(0), Op::Set(1, Field::MaxRedirections, 2), Op::Clone(0), Op::Drop(0)]}));
     ctx.sample(json!({"plan": ps[ps.len() - 1]}));
@@ -845,7 +912,7 @@ pub fn c16(ctx: &Ctx) -> Report {
     rep.set("exhaustive", true);
     rep.set(
         "rule",
-        "breadth-first search over API histories {Session::new, clone, every setter with two values, header/header_append with colliding names, session.get(), the same setters on the request, drop}, live objects <= 4 (3 for header plans), one plan per settings field (all histories up to the depth bound), header plans, and a mixed plan over all fields; state = reference value of every live object + partition of the objects by Arc identity; in every state every live object's settings snapshot is compared with the reference, and every live request is prepared and sent through a scripted world that makes each setting visible (redirect bound, header limit, proxy dialled, Accept-Encoding, default charset, timeouts handed to the dialler); plus the product {8 method constructors} x session allow_compression {untouched, true, false} x request allow_compression {untouched, true, false} x caller's own Accept-Encoding {none, on the session, on the request, session + appended on the request} x {prepared, sent}: gzip/deflate is announced exactly when compression is allowed, whatever the method, and with compression off the caller's values reach the request unchanged",
+        "breadth-first search over API histories {Session::new, clone, every setter with two values, header/header_append with colliding names, session.get(), the same setters on the request, drop}, live objects <= 4 (3 for header plans), one plan per settings field (all histories up to the depth bound), header plans, and a mixed plan over all fields; state = reference value of every live object + partition of the objects by Arc identity; in every state every live object's settings snapshot is compared with the reference, and every live request is prepared and sent through a scripted world that makes each setting visible (redirect bound, header limit, proxy dialled, Accept-Encoding, default charset, timeouts handed to the dialler); plus the product {8 method constructors} x session allow_compression {untouched, true, false} x request allow_compression {untouched, true, false} x caller's own Accept-Encoding {none, on the session, on the request, session + appended on the request} x {prepared, sent}: gzip/deflate is announced exactly when compression is allowed, whatever the method, and with compression off the caller's values reach the request unchanged; plus User-Agent / Accept / X-A values with obs-text bytes set or appended on the session or the request, prepared and sent: exactly the caller's value goes out",
     );
     rep.assume("threads: every mutator takes &mut self or self and the crate has no unsafe code outside cfg(windows) (checked: see unsafe_blocks_in_repo_src), so concurrent use can only share an immutable Arc; interleavings at operation granularity are the explored sequential histories; the free-running thread run is a smoke test, not the deciding step");
     rep.assume("std::sync::Arc::make_mut is correct");
@@ -868,9 +935,10 @@ fn walk(dir: &str) -> Vec<String> {
 }
 
 pub fn replay(v: &serde_json::Value) -> i32 {
-    if v["case"]["method_cells"] == true {
+    if v["case"]["method_cells"] == true || v["case"]["obs_text"] == true {
         let ctx = Ctx::new("C16", Tier::Quick);
         method_cells(&ctx);
+        obs_text_cells(&ctx);
         let vs = ctx.drain_violations();
         for (v, n) in &vs {
             println!("{}: {} ({n} cases)", v.signature, v.what);
